@@ -93,7 +93,7 @@ where
         | .error y => .error y
         | .ok b => .ok ⟨(statusOf x).1, (statusOf x).2, .reply b⟩
 
-/-- the calls after a failure are assumed not to raise: hypothesis of `doPost_total` -/
+/-- the calls after a failure are assumed not to raise: hypothesis of `doPost_total_partial` -/
 def PostEnv.FaultPathOk {σ : Type} (e : PostEnv σ) : Prop :=
   (∃ u, e.mkFaultMsg = .ok u) ∧ (∃ b, e.serFault = .ok b) ∧ (∃ u, e.read2 = .ok u) ∧ (∃ u, e.mkReply = .ok u) ∧
     (∃ b, e.serReply = .ok b)
@@ -168,5 +168,42 @@ deriving DecidableEq, Repr
 
 /-- the policy for a site that sees peer data: no entity resolution, no network, no DTD loading -/
 def ParserSite.safe (p : ParserSite) : Bool := !p.resolveEntities && p.noNetwork && !p.loadDtd
+
+/-! ## deferred dispatch of the consumer: `DispatchKeyRegistryDeferred`
+
+`on_post` puts (handler, request) on a bounded queue and answers immediately; the worker thread `_read_queue` takes the
+items one by one and calls the handler inside `try … except Exception` (the catch-all is *inside* the loop). -/
+
+structure Item where
+  id : Nat
+  outcome : Stage Unit        -- what the handler does with it (returns or raises)
+deriving DecidableEq, Repr
+
+structure DState where
+  queue : List Item           -- queue.Queue(cap) content, oldest first
+  handled : List Nat          -- ids handed to their handler, in order
+  alive : Bool                -- the worker thread is still in its loop
+deriving DecidableEq, Repr
+
+inductive DOp
+  | post (it : Item)          -- on_post: queue.put((func, request, action)); return EmptyResponse()
+  | work                      -- one pass of the worker loop
+deriving DecidableEq, Repr
+
+/-- one step; the Bool says "this `put` would block" (queue full), in which case nothing changes -/
+def dstep (cap : Nat) (s : DState) : DOp → DState × Bool
+  | .post it => if s.queue.length < cap then ({ s with queue := s.queue ++ [it] }, false) else (s, true)
+  | .work =>
+    if s.alive then
+      match s.queue with
+      | [] => (s, false)                                  -- queue.get() waits
+      | it :: r =>
+        -- try: func(request)  except Exception: log   — whatever `it.outcome` is, the loop goes on
+        ({ queue := r, handled := s.handled ++ [it.id], alive := true }, false)
+    else (s, false)
+
+def drun (cap : Nat) (s : DState) : List DOp → DState
+  | [] => s
+  | op :: ops => drun cap (dstep cap s op).1 ops
 
 end Sdc.RequestFlow
